@@ -26,8 +26,16 @@ LEVEL_TEXT = (
     "working directory (even with '..'), every string and every CWD/CDUP history (Closed under the global context). "
     "Windows flavour of base_path: the property is refuted (C02_confined_win_refuted, C02_virt_is_location_win_refuted, "
     "C02_drive_escape_win_refuted; known finding F11) and proved for inputs whose resolved components contain neither "
-    "backslash nor colon (C02_confined_win_partial). The models are hand-written; the tie is a bounded-exhaustive "
-    "correspondence with the real pathlib and the real get_paths (about 3*10^5 cases per quick run)."
+    "backslash nor colon (C02_confined_win_partial). Histories on ONE control connection with several logins "
+    "(Model/PathsSess.v): C02_session_spec (every path handed to the backend along any history of logins, CWD/CDUP, path "
+    "commands, STOR/APPE, RNFR/RNTO is base_path(owner) ++ names as an independent bookkeeping says), "
+    "C02_path_output_history_independent, C02_session_confined_plain and C02_session_confined_partial are proved for every "
+    "user table with absolute home paths and every history; the full statement (every such path lies in the base of the user "
+    "logged in at that moment) is refuted twice (C02_session_rnfr_carried_refuted = F18, C02_session_stor_root_parent_refuted = "
+    "F19). C02_get_paths_reads_only_user_and_cwd is a closed check, recomputed on every run, that the source of get_paths reads "
+    "nothing of the connection but user.base_path and current_directory and keeps no state. The models are hand-written; the "
+    "tie is a bounded-exhaustive correspondence with the real pathlib and the real get_paths (about 3*10^5 cases per quick "
+    "run), histories on one reused Connection object, and wire-level sessions with re-logins on simnet with a recording backend."
 )
 LEVEL_NOTE = (
     "Trusted: Coq kernel; extraction cross-checked with vm_compute; harness. Modelled, not verified: CPython 3.12 pathlib "
@@ -38,7 +46,11 @@ LEVEL_NOTE = (
 TRUSTED = [
     "pathlib model: Lib/PosixPath.v and Lib/WinPath.v stand for CPython 3.12 PurePosixPath / PureWindowsPath "
     "(validated by the bounded-exhaustive streams 'pathlib' and 'winpath' on every run, not proved)",
+    "tools/py2v/gen_resolve.py (syntactic: attribute chains of the parameter `connection`, free names, scope statements of Server.get_paths)",
+    "Model/PathsSess.v transcribes what user(), cwd/cdup, stor, rnfr, rnto do with connection.user / current_directory / rename_from "
+    "(validated by the wire stream on the real handlers, not derived from the source)",
 ]
+USES_GEN = ["Resolve"]
 ASSUMPTIONS = [
     "lexical confinement only: symlinks inside base_path are outside the property",
     "the working directory is only ever assigned home_path or the virtual result of get_paths (cwd/cdup handlers; checked by reading, "
